@@ -43,6 +43,10 @@ def confirm(d):
     try:
         # same directory name as the author used (some demonstrations depend on their package path)
         dname = "demo" + (name.split("-")[-1] if name.split("-")[-1].isdigit() else "")
+        try:
+            dname = json.load(open(os.path.join(d, "meta.json"))).get("demo_dir", dname)
+        except Exception:
+            pass
         demo = os.path.join(wt, dname)
         os.makedirs(demo)
         shutil.copy(os.path.join(d, "demo_test.go"), os.path.join(demo, "demo_test.go"))
